@@ -108,9 +108,38 @@ def kernel_ret_model(C, st):
     return v
 
 
+def post_reset(C):
+    import sys as _sys, fractions
+    o, n = C.old, C.new
+    nd = [v for k, v in C.post_state.env.items() if C.e.var_names.get(k) == 'n' and not str(k).startswith(('tmp!', 'param'))][0]
+    used = o.f(nd, 'node.is_used_')
+    return [('every-live-node-starts-the-contact-phase-uncoupled', z3.Implies(used, z3.Not(n.f(nd, 'node.coupled_node_.has')))),
+            ('closest-distance-reset', z3.Implies(used, n.f(nd, 'node.squared_distance_to_closest_node_') == z3.RealVal(fractions.Fraction(_sys.float_info.max))))]
+
+
 def build(reg, cfg):
     k = kernel_contract(); k.ret_model = kernel_ret_model
     if cfg['SIMUCELL3D_VERIF_CONTACT_MODEL_INDEX'] == 1:
         reg.add(Contract('contact_node_node_via_coupling::resolve_contact', PROP, pre=pre_nn, post=post_nn, use=[k], safety={'bounds'}, split_heap_ifs=True,
                          assigns=['node.force_.dx_', 'node.force_.dy_', 'node.force_.dz_', 'node.coupled_node_.has', 'node.coupled_node_.value.first',
                                   'node.coupled_node_.value.second', 'node.squared_distance_to_closest_node_']))
+        # couplings of the previous iteration never survive: body of the per-node reset loop of run()
+        reg.add(Contract('contact_node_node_via_coupling::run', PROP, post=post_reset, slice_loop=2, name='contact_node_node_via_coupling::run::<coupling reset loop>'))
+
+
+EXPLANATION = ("Contract on the per-pair rule of the node-node coupling contact model (contact_node_node_via_coupling::resolve_contact, the "
+               "configuration the repository ships), executed from the AST with the closest-point kernel replaced by its C05 contract. "
+               "Four kinds of paths (coupling created, no contact, contact not on the forbidden side, repulsion applied) are kept apart. "
+               "Proved on every path: sum of the force increments of the four nodes is zero; only those four nodes receive force; positions "
+               "untouched; any force implies d2 < max cut-off^2; the node's force is parallel to and points toward the closest surface point; "
+               "the reaction on the face nodes is minus the node force times the barycentric weights; force only on the forbidden side "
+               "(inside for ordinary pairs, the reverse for epithelial-in-ECM and nucleus-in-cell); a coupling is created only between two "
+               "epithelial cells, to a node of that face, within the adhesion cut-off, never together with a force. Plus the body of the "
+               "reset loop of run(): every live node starts the contact phase uncoupled (no coupling survives from the previous iteration).")
+ASSUMPTIONS = ["exact reals; std::numeric_limits<double>::max() is the real number DBL_MAX",
+               "caller obligations taken as preconditions: the two cells differ (guard in resolve_all_contacts + unique ids, C08), the face is a live face of c2 stored in its own slot with three distinct node ids in range (C01), non-degenerate, cached area >= 0 (C12), all repulsion strengths >= 0 and max cut-off >= both cut-offs (C18 / constructor)",
+               "the kernel is used through its contract (proved in C05) rather than re-executed",
+               "contact models 0 (node-face springs) and 2 (face-face coupling) are not under contract in this check"]
+UNVERIFIED = ["contact_node_face_via_spring::apply_contact_forces and contact_face_face_via_coupling::resolve_contact (other compile-time configurations)",
+              "the midpoint snap of coupled nodes at the end of resolve_all_contacts",
+              "mutuality of couplings (a node's previous partner keeps pointing at it): observed, not required by the property"]
